@@ -250,7 +250,7 @@ RULES = {}
 ASSUME = {}
 
 
-def finish(pid, tier, seed, partials, rule, assumptions, exhaustive_groups, t0, inconclusive_reasons, out_evidence=True):
+def finish(pid, tier, seed, partials, rule, assumptions, exhaustive_groups, t0, inconclusive_reasons, out_evidence=True, single=False):
     """merge shard results, write evidence + witnesses, print verdict lines, return exit code"""
     evals, skipped, cases, vcount = Counter(), Counter(), Counter(), Counter()
     sigs, samples, violations, errors, worst, info, required = set(), [], [], [], {}, {}, set()
@@ -278,13 +278,15 @@ def finish(pid, tier, seed, partials, rule, assumptions, exhaustive_groups, t0, 
     for e in errors[:5]:
         reasons.append("harness error in %s[%s]: %s" % (e["group"], e["idx"], str(e["what"]).strip().splitlines()[-1][:200]))
     missing = sorted(c for c in required if evals.get(c, 0) == 0)
-    if missing:
+    if missing and not single:
         reasons.append("deciding monitor never evaluated for: " + ", ".join(missing))
     if sum(evals.values()) == 0:
         reasons.append("no monitor evaluation at all")
 
     known = load_known()
-    (VERIF / "replay").mkdir(exist_ok=True)
+    # witnesses of runs against another tree (FLOWDYN_REPO: mutant self-tests) go to their own directory
+    rdir = VERIF / "replay" / ("alt" if os.environ.get("FLOWDYN_REPO") else "")
+    rdir.mkdir(parents=True, exist_ok=True)
     lines, nviol_new, seen = [], 0, set()
     for v in violations:
         if v["key"] in seen:
@@ -296,7 +298,7 @@ def finish(pid, tier, seed, partials, rule, assumptions, exhaustive_groups, t0, 
             continue
         nviol_new += 1
         slug = "".join(ch if ch.isalnum() else "_" for ch in v["key"])[:60]
-        path = VERIF / "replay" / ("%s-%s-%s-%d.json" % (pid, slug, v["group"], v["idx"]))
+        path = rdir / ("%s-%s-%s-%d.json" % (pid, slug, v["group"], v["idx"]))
         path.write_text(json.dumps({"property": pid, "tier": tier, "seed": seed, "group": v["group"], "idx": v["idx"],
                                     "key": v["key"], "detail": v["detail"], "case": v["case"],
                                     "occurrences": vcount[v["key"]],
